@@ -80,26 +80,28 @@ def main(repo):
     src = open(f"{repo}/src/mpc/protocol.rs").read(); st = statements(extract(src)); env = dict(NAMES); lines = []
     if not re.fullmatch(r'let &Context \{[^}]*\} = ctx;', st[0]): raise SystemExit(f"translator(validate): first statement must destructure the context: `{st[0]}`")
     for s in st[1:]:
-        if s == 'circ.validate()?;': lines.append("match c.validate with | .error e => .error (.circuit e) | .ok _ =>"); continue
+        if s == 'circ.validate()?;': lines.append("(match c.validate with | .error e => .error (.circuit e) | .ok _ => @R@)"); continue
         m = re.fullmatch(r'let ([a-z_]+) = circ \.insts \.iter\(\) \.position\(\|inst\| !matches!\(inst\.op, Op::Input\(_\)\)\) \.unwrap_or\(circ\.insts\.len\(\)\);', s)
-        if m: env[m.group(1)] = m.group(1); lines.append(f"let {m.group(1)} := (c.insts.findIdx? (fun inst => !inst.op.isInput)).getD c.insts.length"); continue
+        if m: env[m.group(1)] = m.group(1); lines.append(f"(let {m.group(1)} := (c.insts.findIdx? (fun inst => !inst.op.isInput)).getD c.insts.length; @R@)"); continue
         m = re.fullmatch(r'if let Some\(\(([a-z_]+), inst\)\) = circ \.insts \.iter\(\) \.enumerate\(\) \.skip\(([a-z_]+)\) \.find\(\|\(_, inst\)\| matches!\(inst\.op, Op::Input\(_\)\)\) \{ return Err\(CircuitError::InvalidInput\(\1, \*inst\)\.into\(\)\); \}', s)
-        if m: lines.append(f"match ((c.insts.zipIdx.drop {expr(m.group(2), env)}).find? (fun (inst, _) => inst.op.isInput)) with | some (_, {m.group(1)}) => .error (.circuit (.invalidInput {m.group(1)})) | none =>"); continue
+        if m: lines.append(f"(match ((c.insts.zipIdx.drop {expr(m.group(2), env)}).find? (fun (inst, _) => inst.op.isInput)) with | some (_, {m.group(1)}) => .error (.circuit (.invalidInput {m.group(1)})) | none => @R@)"); continue
         m = re.fullmatch(r'let Some\(([a-z_]+)\) = circ\.input_regs\.get\((.+?)\) else \{ return Err\((.+?)\); \};', s)
-        if m: env[m.group(1)] = m.group(1); lines.append(f"match c.inputRegs[{expr(m.group(2), env)}]? with | none => .error {err(m.group(3), env)} | some {m.group(1)} =>"); continue
+        if m: env[m.group(1)] = m.group(1); lines.append(f"(match c.inputRegs[{expr(m.group(2), env)}]? with | none => .error {err(m.group(3), env)} | some {m.group(1)} => @R@)"); continue
         m = re.fullmatch(r'if (.+?) \{ return Err\((.+)\); \}', s)
-        if m: lines.append(f"if {cond(m.group(1), env)} then .error {err(m.group(2), env)} else"); continue
+        if m: lines.append(f"(if {cond(m.group(1), env)} then .error {err(m.group(2), env)} else @R@)"); continue
         m = re.fullmatch(r'for \(([a-z_]+), ([a-z_]+)\) in ([a-z_]+)\.iter\(\)\.enumerate\(\) \{ if (.+?) \{ return Err\((.+)\); \} \}', s)
         if m:
             idx, x, lst = m.group(1), m.group(2), m.group(3); env2 = dict(env); env2[idx] = idx; env2[x] = x
-            lines.append(f"match ({expr(lst, env)}.zipIdx.find? (fun ({x}, {idx}) => {cond(m.group(4), env2)})) with | some ({x}, _) => .error {err(m.group(5), env2)} | none =>"); continue
+            lines.append(f"(match ({expr(lst, env)}.zipIdx.find? (fun ({x}, {idx}) => {cond(m.group(4), env2)})) with | some ({x}, _) => .error {err(m.group(5), env2)} | none => @R@)"); continue
         if s == 'Ok(())': lines.append(".ok ()"); continue
         raise SystemExit(f"translator(validate): statement outside the subset: `{s}`")
     if not lines or lines[-1] != ".ok ()": raise SystemExit("translator(validate): the function must end with Ok(())")
     print("-- GENERATED by translator/rs2lean_validate.py from " + repo + "/src/mpc/protocol.rs (fn validate) — do not edit")
     print("import PolytuneModel.Proto.Validate\nnamespace PolytuneModel.Gen\nopen PolytuneModel\n")
     print("def validateArgs (c : Circuit) (p_own inputs_len p_eval : Nat) (p_out : List Nat) : Except ArgErr Unit :=\n  let p_max := c.inputRegs.length")
-    for l in lines: print("  " + l)
+    body = lines[-1]
+    for l in reversed(lines[:-1]): body = l.replace("@R@", body)
+    print("  " + body)
     print("\nend PolytuneModel.Gen")
 
 if __name__ == "__main__": main(sys.argv[1] if len(sys.argv) > 1 else "/repo")
